@@ -18,6 +18,10 @@ type mwRun struct {
 	X1   []F64 `json:"x1"`
 	X2   []F64 `json:"x2"`
 	Alts []int `json:"alts"`
+	// WarmT: tie vectors (each summing to len(X1)+len(X2)) whose exact distributions
+	// UDist{n1,n2,T'} are evaluated IN THE SAME PROCESS, at the very U values the calls below
+	// will ask for, before the calls: a result must not depend on what was computed before.
+	WarmT [][]int `json:"warm_t,omitempty"`
 }
 
 func mwValidate(r *mwRun) error {
@@ -34,6 +38,21 @@ func mwValidate(r *mwRun) error {
 	for _, a := range r.Alts {
 		if a < -1 || a > 1 {
 			return fmt.Errorf("bad alternative")
+		}
+	}
+	if len(r.WarmT) > 4096 {
+		return fmt.Errorf("too many warm-up vectors")
+	}
+	for _, t := range r.WarmT {
+		sum := 0
+		for _, x := range t {
+			if x < 1 {
+				return fmt.Errorf("bad warm-up tie count")
+			}
+			sum += x
+		}
+		if len(t) < 2 || sum != len(r.X1)+len(r.X2) || len(r.X1) == 0 || len(r.X2) == 0 {
+			return fmt.Errorf("bad warm-up tie vector")
 		}
 	}
 	if r.EL < -1<<40 || r.EL > 1<<40 || r.TL < -1<<40 || r.TL > 1<<40 {
@@ -170,6 +189,29 @@ func mwEmit(l *Line, r *mwRun) {
 	stats.MannWhitneyExactLimit, stats.MannWhitneyTiesExactLimit = r.EL, r.TL
 	l.I(r.EL).I(r.TL).Fs(s1).Fs(s2).I(len(r.Alts))
 	pure := true
+	if len(r.WarmT) > 0 {
+		twoU := 0
+		for _, a := range s1 {
+			for _, b := range s2 {
+				if a > b {
+					twoU += 2
+				} else if a == b {
+					twoU++
+				}
+			}
+		}
+		u1 := float64(twoU) / 2
+		u2 := float64(len(s1)*len(s2)) - u1
+		for _, t := range r.WarmT {
+			d := stats.UDist{N1: len(s1), N2: len(s2), T: append([]int{}, t...)}
+			catch(func() {
+				for _, u := range []float64{u1, u1 - 0.5, u2, u2 - 0.5} {
+					d.CDF(u)
+					d.PMF(u)
+				}
+			})
+		}
+	}
 	for k, alt := range r.Alts {
 		args := mwLayout(k+len(s1)+len(s2), s1, s2, r.X1 == nil, r.X2 == nil)
 		x1, x2 := args.x1, args.x2
@@ -219,4 +261,39 @@ func mwOnePair(rng *rand.Rand, n1, n2 int) ([]float64, []float64) {
 	vals[k+1] = vals[k]
 	rng.Shuffle(n, func(i, j int) { vals[i], vals[j] = vals[j], vals[i] })
 	return append([]float64{}, vals[:n1]...), append([]float64{}, vals[n1:]...)
+}
+
+// extremeTies lists every tie vector with 2..4 groups summing to n in which all groups but one have
+// size <= 3 — one huge group, in every position.
+func extremeTies(n int) [][]int {
+	var out [][]int
+	for k := 2; k <= 4; k++ {
+		small := make([]int, k-1)
+		var rec func(i int)
+		rec = func(i int) {
+			if i == k-1 {
+				sum := 0
+				for _, x := range small {
+					sum += x
+				}
+				big := n - sum
+				if big <= 3 {
+					return // counted among the vectors with only small groups; not extreme
+				}
+				for pos := 0; pos < k; pos++ {
+					t := make([]int, 0, k)
+					t = append(t, small[:pos]...)
+					t = append(t, big)
+					t = append(t, small[pos:]...)
+					out = append(out, t)
+				}
+				return
+			}
+			for small[i] = 1; small[i] <= 3; small[i]++ {
+				rec(i + 1)
+			}
+		}
+		rec(0)
+	}
+	return out
 }
